@@ -93,6 +93,7 @@ func Load(dir string, overlay map[string][]byte, patterns []string) (*Program, e
 	P.parkForever = map[string]bool{}
 	addIntrinsics(P)
 	addBadgerModel(P)
+	addSSZModel(P)
 	return P, nil
 }
 
@@ -621,7 +622,8 @@ func (w *Worker) runOnce() (cres ConcreteResult) {
 	// one sample per few paths: a satisfying assignment of the completed path
 	if outcome == "completed" && len(i.vars) > 0 {
 		e.mu.Lock()
-		want := len(e.Samples) < 5
+		n := e.PathsByHarn[i.harness]
+		want := len(e.Samples) < 60 && (n == 1 || n == 5 || n == 23 || n == 101 || n == 499 || n == 2003)
 		e.mu.Unlock()
 		if want {
 			if res, model := w.solver.Check(nil, i.vars); res == "sat" {
